@@ -14,17 +14,19 @@
   connection label anchor points (`GetLabelTopLeft`, `GetArrowheadLabelPosition`: route geometry), positioned tooltip
   bounds (text measurement).
 -/
+import D2V.Gen.BBoxConsts
+
 namespace D2V.BBox
 
-/-! ### constants (`d2target`, `lib/label`) -/
-def SHADOW_SIZE_X : Int := 3
-def SHADOW_SIZE_Y : Int := 5
-def THREE_DEE_OFFSET : Int := 15
-def MULTIPLE_OFFSET : Int := 10
-def PADDING : Int := 5
-def DEFAULT_ICON_SIZE : Int := 32
-def MAX_ICON_SIZE : Int := 64
-def BADGE : Int := 16
+/-! ### constants (`d2target`, `lib/label`), regenerated from the Go sources on every run -/
+def SHADOW_SIZE_X : Int := D2V.Gen.BBoxConsts.SHADOW_SIZE_X
+def SHADOW_SIZE_Y : Int := D2V.Gen.BBoxConsts.SHADOW_SIZE_Y
+def THREE_DEE_OFFSET : Int := D2V.Gen.BBoxConsts.THREE_DEE_OFFSET
+def MULTIPLE_OFFSET : Int := D2V.Gen.BBoxConsts.MULTIPLE_OFFSET
+def PADDING : Int := D2V.Gen.BBoxConsts.PADDING
+def DEFAULT_ICON_SIZE : Int := D2V.Gen.BBoxConsts.DEFAULT_ICON_SIZE
+def MAX_ICON_SIZE : Int := D2V.Gen.BBoxConsts.MAX_ICON_SIZE
+def BADGE : Int := D2V.Gen.BBoxConsts.BADGE
 def maxInt32 : Int := 2147483647
 def minInt32 : Int := -2147483648
 
@@ -168,8 +170,34 @@ def Shape.box (s : Shape) : Box := ⟨s.x, s.y, s.w, s.h⟩
 
 def threeDeeOffsetY (s : Shape) : Int := if s.type == "hexagon" then THREE_DEE_OFFSET / 2 else THREE_DEE_OFFSET
 
+/-- which variant of `BoundingBox` is modelled (regenerated flag): the tree as found places the label of a 3d / multiple
+    shape on the plain box with ad-hoc shifts; with `labelOnGrownBox` it uses the grown box, as `d2svg.drawShape` does -/
+structure Cfg where
+  labelOnGrownBox : Bool
+deriving Repr, DecidableEq, Inhabited
+
+/-- the variant the current source tree implements -/
+def Cfg.current : Cfg := ⟨D2V.Gen.BBoxConsts.labelOnGrownBox⟩
+/-- the tree as found (before the `fix:` for label placement) -/
+def Cfg.v0 : Cfg := ⟨false⟩
+/-- with the `fix:` applied -/
+def Cfg.v1 : Cfg := ⟨true⟩
+
+/-- the box d2svg places an outside / border label (or an outside icon's label) on: the shape box grown by the 3D or
+    multiple offset (`drawShape`) -/
+def grownBox (s : Shape) : Box :=
+  if s.threeDee then
+    let oy : Rat := threeDeeOffsetY s
+    ⟨s.x, (s.y : Rat) - oy, (s.w : Rat) + THREE_DEE_OFFSET, (s.h : Rat) + oy⟩
+  else if s.multiple then
+    ⟨s.x, (s.y : Rat) - MULTIPLE_OFFSET, (s.w : Rat) + MULTIPLE_OFFSET, (s.h : Rat) + MULTIPLE_OFFSET⟩
+  else s.box
+
 /-- label top-left as `BoundingBox` computes it -/
-def labelTLBB (s : Shape) (l : Label) : Rat × Rat :=
+def labelTLBB (cfg : Cfg) (s : Shape) (l : Label) : Rat × Rat :=
+  if cfg.labelOnGrownBox then
+    pointOnBox l.pos (if isOutside l.pos || isBorder l.pos then grownBox s else s.box) PADDING l.w l.h
+  else
   let p := pointOnBox l.pos s.box PADDING l.w l.h
   if s.threeDee then
     let off : Rat := threeDeeOffsetY s
@@ -186,8 +214,8 @@ def baseCands (s : Shape) : Cands :=
 
 def personCands (s : Shape) : Cands :=
   if s.type == "c4-person" then
-    let headRadius := truncZ ((s.w : Rat) * (22 / 100))
-    let headCenterY := truncZ ((s.h : Rat) * (18 / 100))
+    let headRadius := truncZ ((s.w : Rat) * ((D2V.Gen.BBoxConsts.headRadiusPct : Rat) / 100))
+    let headCenterY := truncZ ((s.h : Rat) * ((D2V.Gen.BBoxConsts.headCenterPct : Rat) / 100))
     ⟨[], [s.y + headCenterY - headRadius - s.sw], [], []⟩
   else {}
 
@@ -223,15 +251,15 @@ def iconCands (s : Shape) : Cands :=
     else {}
   | none => {}
 
-def labelCands (s : Shape) : Cands :=
+def labelCands (cfg : Cfg) (s : Shape) : Cands :=
   match s.label with
   | some l =>
-    let p := labelTLBB s l
+    let p := labelTLBB cfg s l
     ⟨[truncZ p.1], [truncZ p.2], [truncZ p.1 + l.w], [truncZ p.2 + l.h]⟩
   | none => {}
 
-def shapeCands (s : Shape) (tip : Option (Int × Int × Int × Int) := none) : Cands :=
-  baseCands s ++ personCands s ++ badgeCands s tip ++ shadowCands s ++ threeCands s ++ multiCands s ++ iconCands s ++ labelCands s
+def shapeCands (cfg : Cfg) (s : Shape) (tip : Option (Int × Int × Int × Int) := none) : Cands :=
+  baseCands s ++ personCands s ++ badgeCands s tip ++ shadowCands s ++ threeCands s ++ multiCands s ++ iconCands s ++ labelCands cfg s
 
 def anchoredCands (l : Option AnchoredLabel) : Cands :=
   match l with
@@ -246,8 +274,8 @@ def routeCands (c : Conn) : Cands :=
 def connCands (c : Conn) : Cands :=
   routeCands c ++ anchoredCands c.label ++ anchoredCands c.srcLabel ++ anchoredCands c.dstLabel
 
-def allCands (d : Diagram) (tips : String → Option (Int × Int × Int × Int) := fun _ => none) : Cands :=
-  (d.shapes.map fun s => shapeCands s (tips s.id)).foldl (· ++ ·) {} ++ (d.conns.map connCands).foldl (· ++ ·) {}
+def allCands (cfg : Cfg) (d : Diagram) (tips : String → Option (Int × Int × Int × Int) := fun _ => none) : Cands :=
+  (d.shapes.map fun s => shapeCands cfg s (tips s.id)).foldl (· ++ ·) {} ++ (d.conns.map connCands).foldl (· ++ ·) {}
 
 structure IBox where
   x1 : Int
@@ -260,9 +288,9 @@ def minFold (init : Int) (l : List Int) : Int := l.foldl min init
 def maxFold (init : Int) (l : List Int) : Int := l.foldl max init
 
 /-- `Diagram.BoundingBox()` -/
-def boundingBox (d : Diagram) (tips : String → Option (Int × Int × Int × Int) := fun _ => none) : IBox :=
+def boundingBox (cfg : Cfg) (d : Diagram) (tips : String → Option (Int × Int × Int × Int) := fun _ => none) : IBox :=
   if d.shapes.isEmpty then ⟨0, 0, 0, 0⟩ else
-  let c := allCands d tips
+  let c := allCands cfg d tips
   ⟨minFold maxInt32 c.x1, minFold maxInt32 c.y1, maxFold minInt32 c.x2, maxFold minInt32 c.y2⟩
 
 /-! ### viewport: `dimensions` + the shifts of `Render` (no legend) -/
@@ -274,7 +302,7 @@ structure ViewBox where
   h : Int
 deriving Repr, BEq, DecidableEq, Inhabited
 
-def INNER_BORDER_OFFSET : Int := 5
+def INNER_BORDER_OFFSET : Int := D2V.Gen.BBoxConsts.INNER_BORDER_OFFSET
 
 def viewBox (bb : IBox) (pad rootSW : Int) (rootDouble : Bool) : ViewBox :=
   let left := bb.x1 - pad
@@ -309,16 +337,6 @@ structure Extent where
   what : String
   box : RBox
 deriving Repr, Inhabited, DecidableEq
-
-/-- the box d2svg places an outside / border label (or an outside icon's label) on: the shape box grown by the 3D or
-    multiple offset (`drawShape`) -/
-def grownBox (s : Shape) : Box :=
-  if s.threeDee then
-    let oy : Rat := threeDeeOffsetY s
-    ⟨s.x, (s.y : Rat) - oy, (s.w : Rat) + THREE_DEE_OFFSET, (s.h : Rat) + oy⟩
-  else if s.multiple then
-    ⟨s.x, (s.y : Rat) - MULTIPLE_OFFSET, (s.w : Rat) + MULTIPLE_OFFSET, (s.h : Rat) + MULTIPLE_OFFSET⟩
-  else s.box
 
 /-- the shape box with its stroke, and its shadow / 3D / multiple companions -/
 def boxExtents (s : Shape) : List Extent :=
